@@ -5,7 +5,9 @@ open AbtemVerif AbtemVerif.Proto AbtemVerif.PropagatorModel AbtemVerif.ProbeMode
 /- requests (float64 = decimal value of the IEEE-754 bit pattern):
    `tilt <kx> <ky> <tx> <ty> <dz>`   -> `ok <re> <im>`   factor of `_apply_tilt_to_fresnel_propagator_array`
    `kernel <kx> <ky> <x> <y>`        -> `ok <re> <im>`   `fft_shift_kernel`
-   `propagator <order> <kx> <ky> <dz> <wavelength> <maxsampling> <tx,ty,…|_>` -> `ok <re> <im>` | `err …` -/
+   `propagator <order> <kx> <ky> <dz> <wavelength> <maxsampling> <tx,ty,…|_>` -> `ok <re> <im>` | `err …`
+   `calcarray <order> <kx> <ky> <dz> <wavelength> <maxsampling> <basex> <basey> <axes>` -> `ok <re> <im>` | `err …`
+        axes = `;`-separated ensemble axes in order, each `tx,ty` (member tilt of a tilt axis) or `_` (axis without tilt); `~` = no axes -/
 def showC (c : CF) : String := s!"ok {showF c.re} {showF c.im}"
 
 def pairs : List Float → Option (List (Float × Float))
@@ -29,6 +31,19 @@ def handle : List String → String
       | .ok c => showC c
       | .error e => s!"err {e}"
     | _, _, _, _, _, _, _ => "bad-op"
+  | ["calcarray", o, kx, ky, dz, wl, ms, bx, by_, axes] =>
+    let ax? : Option (List (Option (Float × Float))) :=
+      (parseListList? fbits? axes).bind fun ls => ls.mapM fun l =>
+        match l with
+        | [] => some none
+        | [a, b] => some (some (a, b))
+        | _ => none
+    match parseNat? o, fbits? kx, fbits? ky, fbits? dz, fbits? wl, fbits? ms, fbits? bx, fbits? by_, ax? with
+    | some o, some kx, some ky, some dz, some wl, some ms, some bx, some by_, some axes =>
+      match calcArrayF o kx ky dz wl ms (bx, by_) axes with
+      | .ok c => showC c
+      | .error e => s!"err {e}"
+    | _, _, _, _, _, _, _, _, _ => "bad-op"
   | _ => "bad-op"
 
 def main : IO Unit := serve handle
